@@ -331,7 +331,10 @@ func propColumnNames(args []string) string {
 
 // ---- generator ----
 
-var colNamePool = []string{"a", "a", "a", "b", "a_1", "a_2", "a_1_1", "a_b", "mean", "top", "host", "time", "_1", "a_10", "x"}
+var colNamePool = []string{"a", "a", "a", "b", "a_1", "a_2", "a_1_1", "a_b", "mean", "top", "host", "time", "_1", "a_10", "x",
+	// names with capitals: they are names of their own ("A" and "a" do not clash), as references and as
+	// aliases (round-4 seeded change C20-2 folded case for generated names only)
+	"A", "A", "A_1", "A_2", "Mean", "Top", "Host", "a_B"}
 
 func colIdent(r *rand.Rand) string {
 	n := pick(r, colNamePool)
